@@ -498,7 +498,7 @@ def run(ctx):
     # ---- end to end on the implementation (also the failing-input search)
     import corpus
     descs = corpus.test_descs()
-    pick = {"tutorial", "classes", "strings"} if quick else None
+    pick = {"tutorial", "classes", "strings", "templates"} if quick else None     # (templates: block names emitted once per instantiation)
     descs = [d for d in descs if pick is None or d[0] in pick]
     fails = e2e(ctx, descs, bad_rate=0.12) + decl_route(ctx, bad_rate=0.2)
     for f in fails:
